@@ -484,7 +484,10 @@ pub mod inner {
                 h <= 1 || stride as usize <= len,
                 "stride ({stride}) > data length ({len})"
             );
-            assert!(h as usize <= len, "height ({h}) > data length ({len})");
+            assert!(
+                w == 0 || h as usize <= len,
+                "height ({h}) > data length ({len})"
+            );
             if h > 0 {
                 let size = (h - 1) * stride + w;
                 assert!(
